@@ -91,6 +91,10 @@ type mstate struct {
 	P406   [nC]uint8    // 0 no, 1 pending, 2 done
 	Dial   [2]mdial
 	Reused [nC]uint8 // bit s: peer s decided to reuse this connection (cache hit or negotiation)
+	// WakeSnap: what the close watcher of c@s saw in the cache when it became runnable, i.e.
+	// before it asks for the lock (0 not recorded, 1 none, 2+c connection c). Only recorded
+	// when the extracted reapPeer rows depend on it (code reading the cache outside the lock).
+	WakeSnap [nC][2]int8
 }
 
 type mstep struct {
@@ -236,6 +240,26 @@ func (st *mstate) cacheKind(s int) string {
 
 // apply executes one step; row is the table row used (decide/reap steps).
 func (st mstate) apply(e mstep, tp *tablePair, order string) (mstate, string, error) {
+	post, row, err := st.apply0(e, tp, order)
+	if err != nil || !tp.ReapPre {
+		return post, row, err
+	}
+	// A watcher that becomes runnable by this step reads the cache right away (in the replay
+	// the harness waits for it to arrive at the lock before the next step), i.e. it sees the
+	// cache as this step leaves it.
+	for c := 0; c < nC; c++ {
+		for s := 0; s < 2; s++ {
+			was := st.Armed[c][s] == 1 && st.Closed[c] != causeNone
+			is := post.Armed[c][s] == 1 && post.Closed[c] != causeNone
+			if !was && is {
+				post.WakeSnap[c][s] = post.Cache[s] + 2
+			}
+		}
+	}
+	return post, row, nil
+}
+
+func (st mstate) apply0(e mstep, tp *tablePair, order string) (mstate, string, error) {
 	s := e.S
 	tb := tp.of(s, order)
 	switch e.Kind {
@@ -344,17 +368,31 @@ func (st mstate) apply(e mstep, tp *tablePair, order string) (mstate, string, er
 		st.P406[e.C] = 2
 		return st, "", nil
 	case "reap":
-		kind := "N"
+		kindOf := func(entry int) string {
+			switch {
+			case entry < 0:
+				return "N"
+			case entry == e.C:
+				return "S"
+			}
+			return "X"
+		}
 		entry := int(st.Cache[s])
-		if entry >= 0 {
-			kind = "X"
-			if entry == e.C {
-				kind = "S"
+		lockK := kindOf(entry)
+		preEntry, preK := entry, lockK
+		if tp.ReapPre {
+			if st.WakeSnap[e.C][s] == 0 {
+				return st, "", fmt.Errorf("no wake-up snapshot recorded for the watcher of %s@%s", connName[e.C], peerName[s])
+			}
+			preEntry = int(st.WakeSnap[e.C][s]) - 2
+			preK = kindOf(preEntry)
+			if preK == "X" && lockK == "X" && preEntry != entry {
+				lockK = "Y"
 			}
 		}
-		row, ok := tb.Reap[kind]
+		row, ok := tb.Reap[preK+">"+lockK]
 		if !ok {
-			return st, "", fmt.Errorf("no extracted reap row %s", kind)
+			return st, "", fmt.Errorf("no extracted reap row %s>%s", preK, lockK)
 		}
 		if row.CacheAfter == "none" {
 			st.Cache[s] = -1
@@ -362,11 +400,15 @@ func (st mstate) apply(e mstep, tp *tablePair, order string) (mstate, string, er
 		if row.CloseEntry {
 			st.close(entry, cause401, s)
 		}
+		if row.ClosePre && preEntry != entry {
+			st.close(preEntry, cause401, s)
+		}
 		if row.CloseArg {
 			st.close(e.C, cause401, s)
 		}
 		st.Armed[e.C][s] = 2
-		return st, "reap:" + kind, nil
+		st.WakeSnap[e.C][s] = 0
+		return st, "reap:" + preK + ">" + lockK, nil
 	case "ext":
 		st.close(e.C, causeExt, s)
 		return st, "", nil
